@@ -264,7 +264,13 @@ func runProperty(propID, tier, only string, opts *Options, noreplay bool) int {
 			fmt.Fprintln(os.Stderr, "no harness functions found for", propID)
 			return 2
 		}
-		for _, h := range hs {
+		// a whole-property time cap for the thorough tier: the per-harness budget is reduced so
+		// that every harness still gets a share of what is left
+		var propDeadline time.Time
+		if opts.Thorough && cfg.BudgetThoroughTotal > 0 {
+			propDeadline = start.Add(time.Duration(cfg.BudgetThoroughTotal) * time.Second)
+		}
+		for hi, h := range hs {
 			o := *opts
 			o.SkipInit = map[string]bool{}
 			for _, p := range cfg.SkipInit {
@@ -274,7 +280,17 @@ func runProperty(propID, tier, only string, opts *Options, noreplay bool) int {
 				o.MaxPaths = cfg.MaxPaths
 			}
 			if b := cfg.budget(h.fn.Name(), opts.Thorough); b > 0 {
-				o.Deadline = time.Now().Add(time.Duration(b) * time.Second)
+				d := time.Duration(b) * time.Second
+				if !propDeadline.IsZero() {
+					share := time.Until(propDeadline) / time.Duration(len(hs)-hi) * 2
+					if share < 45*time.Second {
+						share = 45 * time.Second
+					}
+					if share < d {
+						d = share
+					}
+				}
+				o.Deadline = time.Now().Add(d)
 			}
 			res := Explore(ld.prog, h.fn, &o)
 			res.pkgDir = h.pkgDir
